@@ -319,7 +319,12 @@ fn run_hist<C: AnsCombo>(segs: &[Vec<&str>]) -> String {
                 ["nvb"] => hex(coder.num_valid_bits() as u128),
                 ["empty"] => format!("{}", coder.is_empty()),
                 ["clone"] => {
-                    coder = coder.clone();
+                    // both forms of `Clone` (a type may override `clone_from`): `clone()`, then
+                    // `clone_from` into a coder whose bulk *and* state differ from the source's
+                    let copy = coder.clone();
+                    let mut other: Coder<C> = AnsCoder::from_binary(words::<C::W>(&vec![3, 1, 4, 1, 5])).unwrap();
+                    other.clone_from(&copy);
+                    coder = other;
                     "ok".into()
                 }
                 ["clear"] => {
@@ -1188,6 +1193,22 @@ fn oracle_combo<C: AnsCombo>(rng: &mut Rng, w: u32, s: u32, bps: &[(u32, Vec<u32
                         }
                     }
                 }
+            } else if r == 12 && rng.chance(1, 2) {
+                // `clone()` and `clone_from()` (into a coder with unrelated bulk and state) are copies
+                let before = (coder.bulk().clone(), coder.state());
+                let copy = coder.clone();
+                let mut other: AnsCoder<C::W, C::S> = AnsCoder::from_binary(words::<C::W>(&vec![3, 1, 4, 1, 5])).unwrap();
+                other.clone_from(&copy);
+                desc.push_str(" | clone");
+                rep.eval("C01");
+                if (copy.bulk().clone(), copy.state()) != before || (other.bulk().clone(), other.state()) != before {
+                    rep.fail("C01", format!("{} => clone() / clone_from() is not a copy: bulk {:?} state {:x}, clone bulk {:?} state {:x}, clone_from bulk {:?} state {:x}",
+                        desc, before.0.iter().map(|&w| to_u128(w)).collect::<Vec<_>>(), to_u128(before.1),
+                        copy.bulk().iter().map(|&w| to_u128(w)).collect::<Vec<_>>(), to_u128(copy.state()),
+                        other.bulk().iter().map(|&w| to_u128(w)).collect::<Vec<_>>(), to_u128(other.state())));
+                    break;
+                }
+                coder = other;
             } else if r == 12 {
                 // impossible symbol: must fail and leave the coder intact (C09)
                 let before = (coder.bulk().clone(), coder.state());
